@@ -19,12 +19,16 @@ def synth(shape, idx):
         params = "channel"
     elif shape["first"] == "other":
         params = "chan"
+    elif shape["first"] in ("kwonly_channel", "star_channel", "starstar_channel"):
+        params = {"kwonly_channel": "*, channel", "star_channel": "*channel", "starstar_channel": "**channel"}[shape["first"]]
+        has_ab = False
     else:
         params = ""
     if has_ab and params:
         params += ", a=1, b=None" if shape["defaults"] else ", a, b"
     chan = "channel" if shape["first"] == "channel" else "chan"
-    body = [f"{chan}.send(('ran', __name__, {'a, b' if has_ab and params else 'None, None'}, '{chan}' == 'channel'))" if params else "pass"]
+    body = [f"{chan}.send(('ran', __name__, {'a, b' if has_ab and params else 'None, None'}, '{chan}' == 'channel'))"
+            if params and shape["first"] in ("channel", "other") else "pass"]
     if shape["closure"]:
         body.insert(0, "_ = outer_local")
     if shape["global"]:
